@@ -10529,6 +10529,59 @@ let rec iterate salt lines buffer expected0 =
 let split_outputs salt stream =
   iterate salt (split_lines stream) [] N0
 
+(** val finished_lines :
+    n list -> z -> n list list -> n -> n option -> n * n option **)
+
+let rec finished_lines salt code lines n0 first =
+  match lines with
+  | [] -> (n0, first)
+  | l :: r ->
+    (match parse_salted salt l with
+     | Found (_, _, c) ->
+       finished_lines salt code r (N.add n0 (Npos XH))
+         (match first with
+          | Some _ -> first
+          | None -> if Z.eqb c code then Some n0 else None)
+     | _ -> finished_lines salt code r n0 first)
+
+(** val finished : n list -> z -> n list -> n * n option **)
+
+let finished salt code stream =
+  finished_lines salt code (split_lines stream) N0 None
+
+type sverdict =
+| VSkip of n
+| VOuts of (n list * z) list
+| VErr
+
+(** val first_code : z -> (n list * z) list -> n -> n option **)
+
+let rec first_code code outs i =
+  match outs with
+  | [] -> None
+  | p :: r ->
+    let (_, c) = p in
+    if Z.eqb c code then Some i else first_code code r (N.add i (Npos XH))
+
+(** val script_verdict : n list -> z -> n -> z -> n list -> sverdict **)
+
+let script_verdict salt skip ntests exit0 stream =
+  let (fin, o) = finished salt skip stream in
+  (match o with
+   | Some i -> VSkip i
+   | None ->
+     if (&&) (Z.eqb exit0 skip) (N.ltb fin ntests)
+     then VSkip N0
+     else (match split_outputs salt stream with
+           | Some outs ->
+             (match first_code skip outs N0 with
+              | Some i -> VSkip i
+              | None ->
+                if N.eqb (N.of_nat (length outs)) ntests
+                then VOuts outs
+                else VErr)
+           | None -> VErr))
+
 (** val divider_line : n list -> n -> z -> n list **)
 
 let divider_line salt i code =
